@@ -19,7 +19,7 @@ import (
 
 // allInvalid lists every invalid construct the generator knows.
 var allInvalid = []string{
-	model.InvAugMissing, model.InvAugLeaf, model.InvAugCollision, model.InvAugCollisionOwn,
+	model.InvAugMissing, model.InvAugLeaf, model.InvAugCollision, model.InvAugCollisionOwn, model.InvAugBadPrefix,
 	model.InvUsesCycle, model.InvTypedefCycle, model.InvIdentityCycle,
 	model.InvUnknownType, model.InvUnknownGrouping, model.InvUndefinedBase, model.InvDupSibling, model.InvDupUses,
 	model.InvBadRange, model.InvBadConfig,
